@@ -48,7 +48,7 @@ theorem C45_unauthorized_rejected (env : Env) (tx : Tx) (w : World) (op : Op)
     exact h (authOk_sound (step_ok hp).auth)
   exact ⟨hne, step_not_ok hne⟩
 
-/-- an invocation that fails (or panics) changes nothing, and a successful one writes only its target's records -/
+/-- an invocation that fails changes nothing, and a successful one writes only its target's records -/
 theorem C45_frame (env : Env) (tx : Tx) (w : World) (op : Op) :
     ((step env tx w op).2 ≠ .ok → (step env tx w op).1 = w) ∧
     (∀ j, j ≠ op.target env → (step env tx w op).1 j = w j) :=
@@ -205,12 +205,13 @@ example : verifyGroupSignature exEnv (txOf [a0])
 (`regIDWithAttributes` registers it that way) -/
 example : ((run exEnv World.empty [(txOf [a0], .regIDWithAttributes i0 k0 [])]) i0).keys.map (·.isAuth) = [false] := by decide
 
-/-- the panic of `revokePkByIndex` with index 0 is reachable (only after the controller's authorization) -/
+/-- key index 0 in `removeKeyByController` is refused like any index without a key (before /repo bdce7b3a the
+contract panicked here, after the controller's authorization) -/
 example : ((trace exEnv World.empty
     [ (txOf [a0], .regIDWithPublicKey i0 k0),
       (txOf [a0], .regIDWithController i1 (.single i0) { asIndex := some 1, asSigners := none }),
       (txOf [a0], .removeKeyByController i1 0 { asIndex := some 1, asSigners := none }),
-      (txOf [], .removeKeyByController i1 0 { asIndex := some 1, asSigners := none }) ]).map (·.res))
-    = [.ok, .ok, .panic, .fail] := by decide
+      (txOf [a0], .removeKeyByController i1 7 { asIndex := some 1, asSigners := none }) ]).map (·.res))
+    = [.ok, .ok, .fail, .fail] := by decide
 
 end OntVerif.Props.C45
